@@ -229,6 +229,12 @@ func (c *contentValidator) ValidatePermissionChange(ch *aclrecordproto.AclAccoun
 		return ErrNoSuchAccount
 	}
 
+	if currentState.Permissions.NoPermissions() {
+		// an account without permissions (removed, or still waiting to join) is not a member: a
+		// permission change delivers no read key, admission goes through AccountsAdd / RequestAccept
+		return ErrInsufficientPermissions
+	}
+
 	if currentState.Permissions == AclPermissionsGuest {
 		// it shouldn't be possible to change permission of guest user
 		// it should be only possible to remove it with AccountRemove acl change
